@@ -684,7 +684,8 @@ Proof.
   - apply andb_true_iff in Hwf as [_ Hh].
     destruct h as [n|]; cbn [opt_fits64] in Hh; try (apply fits64_lt in Hh);
       destruct previd; cbn; rewrite ?parse_uint_field_utoa by assumption; reflexivity.
-  - destruct h; [discriminate|reflexivity].
+  - destruct h as [n|]; [|reflexivity]. cbn [opt_fits64] in Hwf. apply fits64_lt in Hwf.
+    cbn. now rewrite parse_uint_utoa.
   - apply andb_true_iff in Hwf as [_ Hp]. cbn [enc dec]. unfold named.
     rewrite !str_eqb_refl. cbn [andb]. rewrite (inner_text_esc val Hp). reflexivity.
   - cbn [enc dec]. unfold named. rewrite !str_eqb_refl. cbn [andb].
